@@ -38,7 +38,7 @@ def complete(ex, resumes):
     ex.settle(play=True, resumes=resumes, open_gates=True)
 
 
-def run_reference(case, medium=None, resumes=None, before_complete=None):
+def run_reference(case, medium=None, resumes=None, before_complete=None, midstep=False):
     """Uninterrupted run; with ``medium`` a checkpoint is taken at every state entry."""
     resumes = DEFAULT_RESUMES if resumes is None else resumes
     out = {}
@@ -49,6 +49,8 @@ def run_reference(case, medium=None, resumes=None, before_complete=None):
             return out
         if medium is not None:
             ex.checkpoint('created')
+        if midstep and medium is not None:
+            install_midstep(ex)
         ex.launch_task()
         if before_complete is not None:
             before_complete(ex)
@@ -64,13 +66,29 @@ def run_reference(case, medium=None, resumes=None, before_complete=None):
     return out
 
 
-def run_from(case, ckpt, medium, resumes=None, capture=False, loader=None):
+def install_midstep(ex, skip_first=False):
+    """Also checkpoint at the entry of every step function, before it has had any effect (a crash inside a step)."""
+    state = {'skip': skip_first}
+
+    def from_hook(proc, hook, pos):
+        if pos == 'entry' and hook.startswith('step:') and proc is ex.proc:
+            if state['skip']:
+                state['skip'] = False
+                return  # a run restored from a mid-step checkpoint re-enters that step: not a new crash point
+            ex.checkpoint('midstep:' + hook[5:])
+
+    ex.world.extra['hook_listener'] = from_hook
+
+
+def run_from(case, ckpt, medium, resumes=None, capture=False, loader=None, midstep=False):
     """Abandon everything, load the checkpoint in a fresh loop and world, continue to completion."""
     resumes = DEFAULT_RESUMES if resumes is None else resumes
     out = {}
     with Exec(case, attach_listener=False) as ex:
         ex.capture = medium if capture else None
         try:
+            if midstep and capture:
+                install_midstep(ex, skip_first=str(ckpt.get('why', '')).startswith('midstep'))
             ex.start_from(ckpt['data'], medium, wait_base=ckpt['waits'], loader=loader)
         except Exception as exc:  # noqa: BLE001
             out['load_error'] = exc
